@@ -46,6 +46,12 @@ def instances(tier, rng):
         if len(es) <= 6:
             out.append(dict(name="%s/and" % nm, n=n, edges=es, mode="and", form="array1d"))
             out.append(dict(name="%s/mixed" % nm, n=n, edges=es, mode="mixed", form="list"))
+        if 1 <= len(es) <= 4:
+            # every flag a Python constant (all 2^m choices), in the stored and in the reversed edge order
+            for bits in range(1 << len(es)):
+                out.append(dict(name="%s/const%d" % (nm, bits), n=n, edges=es, mode="const:%d" % bits, form="list"))
+                if len(es) >= 3:
+                    out.append(dict(name="%s/const%d/rev" % (nm, bits), n=n, edges=list(reversed(es)), mode="const:%d" % bits, form="list"))
     return out
 
 
